@@ -519,9 +519,20 @@ pub fn gen_pipe_in(rng: &mut Rng) -> Program {
         for _ in 0..n {
             let y = g.rng.range(0, 2) as u8;
             let body = if y > 0 { vec![Step::Yield(y)] } else { vec![] };
-            match g.rng.below(3) {
+            match g.rng.below(4) {
                 0 => t.push({ let __k = OpKind::Desync { o, body }; g.op(__k) }),
                 1 => t.push({ let __k = OpKind::Sync { o, body }; g.op(__k) }),
+                2 => {
+                    // an operation of the object's own that waits for an event: items then arrive while the queue is parked
+                    let h = g.handle();
+                    let gate = g.gate();
+                    t.push({ let __k = OpKind::FutureDesync { o, body: vec![Step::AwaitGate(gate)], h }; g.op(__k) });
+                    if g.rng.permille(500) {
+                        t.push({ let __k = OpKind::Detach { h }; g.op(__k) });
+                    } else {
+                        t.push({ let __k = OpKind::Await { h }; g.op(__k) });
+                    }
+                }
                 _ => t.push({ let __k = OpKind::Yield(2); g.op(__k) }),
             }
         }
@@ -587,9 +598,19 @@ pub fn gen_pipe_out(rng: &mut Rng) -> Program {
         let mut t = vec![];
         let n = g.rng.range(1, 3);
         for _ in 0..n {
-            match g.rng.below(2) {
+            match g.rng.below(3) {
                 0 => t.push({ let __k = OpKind::Desync { o, body: vec![Step::Yield(1)] }; g.op(__k) }),
-                _ => t.push({ let __k = OpKind::Sync { o, body: vec![] }; g.op(__k) }),
+                1 => t.push({ let __k = OpKind::Sync { o, body: vec![] }; g.op(__k) }),
+                _ => {
+                    let h = g.handle();
+                    let gate = g.gate();
+                    t.push({ let __k = OpKind::FutureDesync { o, body: vec![Step::AwaitGate(gate)], h }; g.op(__k) });
+                    if g.rng.permille(500) {
+                        t.push({ let __k = OpKind::Detach { h }; g.op(__k) });
+                    } else {
+                        t.push({ let __k = OpKind::Await { h }; g.op(__k) });
+                    }
+                }
             }
         }
         threads.push(t);
